@@ -1,5 +1,6 @@
 import Irismod.Props.Tie_Farm
 open Irismod.Props.Tie Irismod.Gen.PureFarm Irismod.Sdk
+#print axioms farm_effects_pinned
 #print axioms farm_guards_pinned
 #print axioms farm_all_translated
 #print axioms farm_translated_pinned
